@@ -43,6 +43,7 @@ type Run struct {
 	curRule     string
 	Notes       []string
 	Controls    []string
+	Spec        *propSpec
 
 	model *Model
 	deep  *Deep
@@ -128,6 +129,9 @@ func NewRun(p *Program, prop, tier string, seed int) *Run {
 
 // Check records an obligation. Duplicate (rule, site, ok) triples are merged.
 func (r *Run) Check(rule, site string, ok bool, pos token.Pos, format string, args ...any) bool {
+	if r.Spec != nil && !r.Spec.keeps(rule) {
+		return ok
+	}
 	key := fmt.Sprintf("%s|%s|%v", rule, site, ok)
 	if r.seenOb[key] {
 		return ok
@@ -141,6 +145,9 @@ func (r *Run) Check(rule, site string, ok bool, pos token.Pos, format string, ar
 
 // CheckT is Check with a path trace attached to a failing obligation.
 func (r *Run) CheckT(rule, site string, ok bool, pos token.Pos, path *Path, format string, args ...any) bool {
+	if r.Spec != nil && !r.Spec.keeps(rule) {
+		return ok
+	}
 	key := fmt.Sprintf("%s|%s|%v", rule, site, ok)
 	if r.seenOb[key] {
 		return ok
@@ -159,6 +166,9 @@ func (r *Run) Undecide(rule, format string, args ...any) {
 // Floor guards against vacuity: a rule that matched fewer instances than the semantic lower bound
 // confirmed by hand cannot be reported as holding.
 func (r *Run) Floor(rule, what string, got, min int) {
+	if r.Spec != nil && !r.Spec.keeps(rule) {
+		return
+	}
 	if got < min {
 		r.Undecide(rule, "vacuity guard: %s = %d, below the floor %d confirmed on the reference tree", what, got, min)
 	}
